@@ -120,7 +120,7 @@ impl AuthorizerBuilder {
         }
 
         for (_, rule) in source_result.rules.into_iter() {
-            let mut rule: Rule = rule.into();
+            let mut rule = Rule::from_parsed(rule)?;
             for (name, value) in &params {
                 let res = match rule.set(name, value) {
                     Ok(_) => Ok(()),
@@ -150,7 +150,7 @@ impl AuthorizerBuilder {
         }
 
         for (_, check) in source_result.checks.into_iter() {
-            let mut check: Check = check.into();
+            let mut check = Check::from_parsed(check)?;
             for (name, value) in &params {
                 let res = match check.set(name, value) {
                     Ok(_) => Ok(()),
@@ -179,7 +179,7 @@ impl AuthorizerBuilder {
             self.authorizer_block_builder.checks.push(check);
         }
         for (_, policy) in source_result.policies.into_iter() {
-            let mut policy: Policy = policy.into();
+            let mut policy = Policy::from_parsed(policy)?;
             for (name, value) in &params {
                 let res = match policy.set(name, value) {
                     Ok(_) => Ok(()),
